@@ -71,7 +71,13 @@ func c06Slots(cs c06Case) []c06Slot {
 	return out
 }
 
+var c06Big = "new " + strings.Repeat("0123456789abcdef", 1500) + "\nsecond line\n" + strings.Repeat("x", 9000)
+
 func c06Want(kind string) (outcome, final string) {
+	if strings.HasSuffix(kind, "-big") {
+		o, _ := c06Want(strings.TrimSuffix(kind, "-big"))
+		return o, c06Big
+	}
 	q := ""
 	if strings.HasPrefix(kind, "sj-") {
 		q = `"`
@@ -102,7 +108,7 @@ func c06Build(c *vfCtx, cs c06Case, n int) (*c06World, []func()) {
 	pre := []vfEntry{{ID: "TestZ - 1", Body: "keep"}}
 	slots := c06Slots(cs)
 	for _, s := range slots {
-		if s.kind == "skip" || strings.HasSuffix(s.kind, "create") {
+		if s.kind == "skip" || strings.HasSuffix(strings.TrimSuffix(s.kind, "-big"), "create") {
 			continue
 		}
 		if s.standalone {
@@ -136,8 +142,12 @@ func c06Build(c *vfCtx, cs c06Case, n int) (*c06World, []func()) {
 				if strings.HasSuffix(kind, "match") && !strings.HasSuffix(kind, "mismatch") {
 					val = "old"
 				}
+				if strings.HasSuffix(kind, "-big") {
+					val = c06Big // larger than any buffer a writer might put in between: must still be ONE write (A1)
+					kind = strings.TrimSuffix(kind, "-big")
+				}
 				upd := ""
-				switch strings.TrimPrefix(strings.TrimPrefix(kind, "sa-"), "sj-") {
+				switch strings.TrimPrefix(strings.TrimPrefix(strings.TrimSuffix(kind, "-big"), "sa-"), "sj-") {
 				case "mismatch":
 					upd = "false"
 				case "update":
@@ -231,7 +241,7 @@ func c06Check(cs c06Case, w *c06World, x *sched.Exec) string {
 	var preOrder, gotPre []string
 	preOrder = append(preOrder, "TestZ - 1")
 	for _, s := range slots {
-		if s.kind != "skip" && !s.standalone && !strings.HasSuffix(s.kind, "create") {
+		if s.kind != "skip" && !s.standalone && !strings.HasSuffix(strings.TrimSuffix(s.kind, "-big"), "create") {
 			preOrder = append(preOrder, s.id)
 		}
 	}
@@ -277,7 +287,7 @@ func c06F4(cs c06Case) bool {
 			}
 			for _, x := range a {
 				for _, y := range b {
-					if x == "create" && y == "update" {
+					if strings.HasPrefix(x, "create") && strings.HasPrefix(y, "update") {
 						return true
 					}
 				}
@@ -465,6 +475,11 @@ func c06Gen(c *vfCtx, emit func(c06Case)) {
 				scen([][]string{{e}, {j}}, 3)
 			}
 		}
+		// values of ~40 KB: appends and rewrites must stay single atomic writes
+		for _, k := range []string{"create", "update", "match", "create-big", "update-big"} {
+			scen([][]string{{"create-big"}, {k}}, 2)
+			scen([][]string{{"update-big"}, {k}}, 2)
+		}
 		c.bound("families", "2x1 all16@pb3; 2x2 diagonal16@pb2; 3x1 all64@pb1; 3x1 {create,update}^3@pb2; mixes with standalone/Skip 16@pb2")
 	} else {
 		// 2 threads x 1 call: unbounded (every schedule), with state-key pruning
@@ -496,7 +511,12 @@ func c06Gen(c *vfCtx, emit func(c06Case)) {
 				scen([][]string{{e}, {j}}, -1)
 			}
 		}
-		c.bound("families", "2x1 all16 unbounded (state-key pruning); 2x2 all256@pb2 + diagonal16@pb3; 3x1 all64@pb2; mixes with standalone/Skip 24@pb3 and 12 three-thread@pb2; one Config for MatchStandaloneJSON+MatchStandaloneSnapshot 9@pb3 + 9 unbounded")
+		for _, k := range []string{"create", "update", "match", "create-big", "update-big"} {
+			scen([][]string{{"create-big"}, {k}}, 3)
+			scen([][]string{{"update-big"}, {k}}, 3)
+			scen([][]string{{"create-big"}, {k}, {"create"}}, 1)
+		}
+		c.bound("families", "big values (~40 KB) 10@pb3 + 5 three-thread@pb1; 2x1 all16 unbounded (state-key pruning); 2x2 all256@pb2 + diagonal16@pb3; 3x1 all64@pb2; mixes with standalone/Skip 24@pb3 and 12 three-thread@pb2; one Config for MatchStandaloneJSON+MatchStandaloneSnapshot 9@pb3 + 9 unbounded")
 		c.note("measured: unbounded exploration with the conservative state key finishes for 2 threads x 1 call (3.3e4 schedules, 6.9e4 state keys per scenario) but not for 3x1 or 2x2 within the deadline (>9e6 transitions); those use preemption bounds")
 	}
 	c.bound("scheduling_points", "every lock operation of vsync.Mutex/RWMutex and every file-system operation of vos")
